@@ -158,7 +158,7 @@ Definition kw (f : flags) (x : str) : kwres :=
   else if kw_is l "and" then KLex And f
   else if kw_is l "not" && after_where f then KLex Not f
   else if kw_is l "order" then KLex Order f
-  else if kw_is l "by" then KLex By f
+  else if kw_is l "by" then KLex By (mkFlags (before_from f) (psr f) (after_open f) true (after_operator f))   (* keys are expressions *)
   else if kw_is l "asc" then KAgain f
   else if kw_is l "desc" then KLex DescendingOrder f
   else if kw_is l "limit" then KLex Limit f
